@@ -342,26 +342,32 @@ def vmapDims {α : Type} (pure : List (PureArg α)) : Except Err (List Nat) :=
   | .error e => .error e
   | .ok ds => .ok ds.flatten
 
+/-- apply `t` to every value of a state (`jax.tree.map` over a `State`) -/
+def leafMap {α β : Type} (t : Arr α → Except Err (Arr β)) (s : State α) : Except Err (State β) :=
+  mapX (fun pv => match t pv.2 with
+    | .ok v => .ok (pv.1, v)
+    | .error e => .error e) s
+
+/-- what index `i` of the mapped axis sees of one leaf with axis `a` (A-VMAP) -/
+def sliceVal {α : Type} [Inhabited α] (i : Nat) (a : Ax) (v : Arr α) : Except Err (Arr α) :=
+  match a with
+  | .axis k => liftL (takeAt k i v)
+  | .bcast => .ok v
+  | .carry => .error .invalidAxes
+
 /-- what index `i` of the mapped axis sees of one state -/
 def sliceState {α : Type} [Inhabited α] (i : Nat) (a : Ax) (s : State α) : Except Err (State α) :=
-  match a with
-  | .axis k => mapX (fun pv => match liftL (takeAt k i pv.2) with
-      | .ok v => .ok (pv.1, v)
-      | .error e => .error e) s
-  | .bcast => .ok s
-  | .carry => .error .invalidAxes
+  leafMap (sliceVal i a) s
 
 def sliceArg {α : Type} [Inhabited α] (i : Nat) : PureArg α → Except Err (PureArg α)
   | .node g p sts =>
     match mapX (fun q => sliceState i q.1 q.2) (p.axes.zip sts) with
     | .error e => .error e
     | .ok sts' => .ok (.node g p sts')
-  | .arr (.ax (.axis k)) a =>
-    match liftL (takeAt k i a) with
-    | .ok v => .ok (.arr (.ax (.axis k)) v)
+  | .arr (.ax a) v =>
+    match sliceVal i a v with
+    | .ok v' => .ok (.arr (.ax a) v')
     | .error e => .error e
-  | .arr (.ax .bcast) a => .ok (.arr (.ax .bcast) a)
-  | .arr (.ax .carry) _ => .error .invalidAxes
   | .arr (.sa _) _ => .error .stateAxesOnArray
 
 /-- one result of the traced function after `to_tree(…, prefix=out_axes)` -/
@@ -392,6 +398,23 @@ def splitArgOut {α : Type} (inner' : Store α) : PureArg α → Except Err (Lis
     | .error e => .error e
     | .ok flat => splitFlat p flat
 
+/-- jax.vmap wants `in_axes` itself to be an int, None or a tuple: a bare `StateAxes` (which flax turns into a
+`NodeStates`) is a TypeError -/
+def AxesSpec.isBareStateAxes : AxesSpec → Bool
+  | .uniform (.sa _) => true
+  | _ => false
+
+/-- `nnx.Carry` anywhere in an axes specification: `jax.vmap(…)` — called when `nnx.vmap(f, …)` is built — accepts only
+ints and None as leaves (TypeError) -/
+def Prefix.hasCarry : Prefix → Bool
+  | .ax .carry => true
+  | .ax _ => false
+  | .sa s => s.any (fun fa => decide (fa.2 = .carry))
+
+def AxesSpec.hasCarry : AxesSpec → Bool
+  | .uniform p => p.hasCarry
+  | .perArg ps => ps.any Prefix.hasCarry
+
 /-- `VmapFn.__call__` -/
 def vmapFn {α : Type} (body : Body α) (outAxes : AxesSpec) (pure : List (PureArg α)) :
     Except Err (List (List (State α)) × List (PureOut α)) :=
@@ -404,6 +427,8 @@ def vmapFn {α : Type} (body : Body α) (outAxes : AxesSpec) (pure : List (PureA
       match mapX (splitArgOut inner') pure with
       | .error e => .error e
       | .ok argsOut =>
+        -- a bare StateAxes `out_axes` (a NodeStates for jax) only matches a single graph node, not a tuple of results
+        if outAxes.isBareStateAxes && decide (outs.length ≠ 1) then .error .prefixArity else
         match outAxes.expand outs.length with
         | .error e => .error e
         | .ok ops =>
@@ -464,7 +489,10 @@ def vmapCollectOut {α : Type} [Inhabited α] (o0 : PureOut α) (col : List (Pur
     match mapX outArr col with
     | .error e => .error e
     | .ok ls => match liftL (stackAt k a0.shape ls) with | .ok a => .ok (.arr a) | .error e => .error e
-  | .arr (.ax .bcast) a0 => .ok (.arr a0)
+  | .arr (.ax .bcast) a0 =>
+    match mapX outArr col with
+    | .error e => .error e
+    | .ok _ => .ok (.arr a0)
   | .arr (.ax .carry) _ => .error .invalidAxes
   | .arr (.sa _) _ => .error .stateAxesOnArray
   | .node p vs _ =>
@@ -475,13 +503,14 @@ def vmapCollectOut {α : Type} [Inhabited α] (o0 : PureOut α) (col : List (Pur
       | .error e => .error e
       | .ok sts => match rebuildNode vs sts with | .ok fl => .ok (.node fl) | .error e => .error e
 
-/-- write the collected states of every graph-node argument back into the caller's Variables -/
-def vmapWriteBack {α : Type} [Inhabited α] (rows : List (List (List (State α)))) :
-    List (Nat × PureArg α) → Store α → Except Err (Store α)
-  | [], store => .ok store
-  | (_, .arr _ _) :: rest, store => vmapWriteBack rows rest store
-  | (k, .node g p _) :: rest, store =>
-    match column k rows with
+/-- write the collected states of every graph-node argument back into the caller's Variables; `rows[i]` holds, for
+the arguments still to be processed, the states index `i` returned -/
+def vmapWriteBack {α : Type} [Inhabited α] : List (List (List (State α))) → List (PureArg α) → Store α →
+    Except Err (Store α)
+  | _, [], store => .ok store
+  | rows, .arr _ _ :: rest, store => vmapWriteBack (rows.map (·.drop 1)) rest store
+  | rows, .node g p _ :: rest, store =>
+    match column 0 rows with
     | .error e => .error e
     | .ok argRows =>
       match vmapCollectStates p.axes argRows with
@@ -489,19 +518,13 @@ def vmapWriteBack {α : Type} [Inhabited α] (rows : List (List (List (State α)
       | .ok sts =>
         match updateStore g.owned sts.flatten store with
         | .error e => .error e
-        | .ok store' => vmapWriteBack rows rest store'
-
-/-- jax.vmap wants `in_axes` itself to be an int, None or a tuple: a bare `StateAxes` (which flax turns into a
-`NodeStates`) is a TypeError -/
-def AxesSpec.isBareStateAxes : AxesSpec → Bool
-  | .uniform (.sa _) => true
-  | _ => false
+        | .ok store' => vmapWriteBack (rows.map (·.drop 1)) rest store'
 
 /-- `nnx.vmap(f, in_axes, out_axes, axis_size)(*args)`.  `verdict` says whether every state and result declared
 with axis `None` on the way out was unbatched in jax's trace. -/
 def nnxVmap {α : Type} [Inhabited α] (inAxes outAxes : AxesSpec) (axisSize : Option Nat) (verdict : Bool)
     (body : Body α) (args : List (Arg α)) (store : Store α) : Except Err (Store α × List (Out α)) :=
-  if inAxes.isBareStateAxes then .error .invalidAxes else
+  if inAxes.isBareStateAxes || inAxes.hasCarry || outAxes.hasCarry then .error .invalidAxes else
   match inAxes.expand args.length with
   | .error e => .error e
   | .ok ps =>
@@ -523,7 +546,7 @@ def nnxVmap {α : Type} [Inhabited α] (inAxes outAxes : AxesSpec) (axisSize : O
             | [] => .error (.body "EmptyLoop")
             | r0 :: _ =>
               if !verdict then .error .unbatchedOutExpected else
-              match vmapWriteBack (rs.map (·.1)) ((List.range pure.length).zip pure) store with
+              match vmapWriteBack (rs.map (·.1)) pure store with
               | .error e => .error e
               | .ok store' =>
                 match mapX (fun q => match column q.1 (rs.map (·.2)) with
@@ -610,9 +633,7 @@ structure ScanIn (α : Type) where
   deriving Repr
 
 def toFrontState {α : Type} [Inhabited α] (k : Int) (s : State α) : Except Err (State α) :=
-  mapX (fun pv => match liftL (Arr.toFront k pv.2) with
-    | .ok v => .ok (pv.1, v)
-    | .error e => .error e) s
+  leafMap (fun v => liftL (Arr.toFront k v)) s
 
 /-- `for state, axis in zip(states, prefix.axes)`: the three routes of `_scan_split_in`
 (`moveIn = true`) and `_scan_split_out` (`moveIn = false`: inside the loop the scanned axis is already gone) -/
@@ -686,9 +707,7 @@ def scanDims {α : Type} (pure : List (SPure α)) : Except Err (List Nat) :=
   | .ok ds => .ok ds.flatten
 
 def take0State {α : Type} [Inhabited α] (i : Nat) (s : State α) : Except Err (State α) :=
-  mapX (fun pv => match liftL (pv.2.take 0 i) with
-    | .ok v => .ok (pv.1, v)
-    | .error e => .error e) s
+  leafMap (fun v => liftL (v.take 0 i)) s
 
 /-- slice `i` of `xs` along the leading axis (the carry argument and the holes are not in `xs`) -/
 def spureAt {α : Type} [Inhabited α] (i : Nat) : SPure α → Except Err (SPure α)
@@ -855,12 +874,13 @@ def scanCollectVec {α : Type} [Inhabited α] (axes : List Ax) (rows : List (Lis
     | .ok col => stackStates (stackFront q.2) col) ((List.range ks.length).zip ks)
 
 /-- `_scan_merge_out` over the graph-node arguments: pops the final `carry_deque_out` and the (unchanged)
-`broadcast_deque`, and writes the merged states into the caller's Variables -/
-def scanWriteBack {α : Type} [Inhabited α] (rows : List (List (List (State α)))) :
-    List (SPure α) → Nat → List (List (State α)) → List (List (State α)) → Store α → Except Err (Store α)
-  | [], _, _, _, store => .ok store
-  | .node g p _ :: rest, k, c :: cd, b :: bd, store =>
-    match column k rows with
+`broadcast_deque`, and writes the merged states into the caller's Variables; `rows[i]` holds, for the graph-node
+arguments still to be processed, the vectorised states iteration `i` returned -/
+def scanWriteBack {α : Type} [Inhabited α] : List (List (List (State α))) →
+    List (SPure α) → List (List (State α)) → List (List (State α)) → Store α → Except Err (Store α)
+  | _, [], _, _, store => .ok store
+  | rows, .node g p _ :: rest, c :: cd, b :: bd, store =>
+    match column 0 rows with
     | .error e => .error e
     | .ok argRows =>
       match scanCollectVec p.axes argRows with
@@ -871,9 +891,9 @@ def scanWriteBack {α : Type} [Inhabited α] (rows : List (List (List (State α)
         | .ok sts =>
           match updateStore g.owned sts.flatten store with
           | .error e => .error e
-          | .ok store' => scanWriteBack rows rest (k + 1) cd bd store'
-  | .node _ _ _ :: _, _, _, _, _ => .error .dequeEmpty
-  | _ :: rest, k, cd, bd, store => scanWriteBack rows rest k cd bd store
+          | .ok store' => scanWriteBack (rows.map (·.drop 1)) rest cd bd store'
+  | _, .node _ _ _ :: _, _, _, _ => .error .dequeEmpty
+  | rows, _ :: rest, cd, bd, store => scanWriteBack rows rest cd bd store
 
 /-- result `k` (other than the carry): stacked along 0, then `moveaxis(x, 0, prefix)` -/
 def scanCollectOut {α : Type} [Inhabited α] (o0 : PureOut α) (col : List (PureOut α)) : Except Err (Out α) :=
@@ -954,7 +974,7 @@ def nnxScan {α : Type} [Inhabited α] (inAxes outAxes : AxesSpec) (length : Opt
                   match ys with
                   | [] => .error (.body "EmptyLoop")
                   | y0 :: _ =>
-                    match scanWriteBack (ys.map (·.1)) si.pure 0 cfin.2 si.bcastDeque store with
+                    match scanWriteBack (ys.map (·.1)) si.pure cfin.2 si.bcastDeque store with
                     | .error e => .error e
                     | .ok store' =>
                       match mapX (fun q => match column q.1 (ys.map (·.2)) with
